@@ -220,6 +220,22 @@ package storage
 //@   serves C11
 //@   inline
 
+// The stored copy of a delivered transaction: what SaveTxState wrote under the txid is what
+// FetchTxState returns for that txid (deep equality up to the codec abstractions of C15), for any
+// store contents and with storage faults (a failed write or read surfaces as an error).
+//@ func SaveTxState
+//@   serves C11
+//@   inline
+//@ func FetchTxState
+//@   serves C11
+//@   inline
+
+//@ func verifSaveFetchTxState
+//@   serves C11
+//@   opt partial = 1
+//@   requires tx != nil && tx.Tx != nil && len(tx.Outputs) == len(tx.Tx.TxIn) && txinCount(abs(tx.Tx)) == len(tx.Tx.TxIn) && forall(k, 0, len(tx.Outputs), tx.Outputs[k] != nil)
+//@   ensures fetched_equals_saved: [C11] result1 == nil ==> result0 != nil && deepeq(result0, tx)
+
 // Writing a record and reading it back yields the same txid, the same three flags and the
 // first-seen time truncated to the millisecond, and consumes exactly the five tokens written.
 //@ func verifRoundTripUnconfirmed
